@@ -2,6 +2,7 @@
    WF n (L,R): both bounds have n entries, are non-decreasing, and L <= R pointwise. *)
 From Coq Require Import Reals Lra Lia List.
 From PUN Require Import Base.Num Model.Pbox Proofs.ListR Proofs.PboxWF Proofs.PboxUnary.
+From PUN Require Import Gen.GenCtor Proofs.CtorTie.
 Import ListNotations.
 Open Scope R_scope.
 
@@ -51,9 +52,21 @@ Example C06_ex : WF 2 ([-1; 2], [0; 3]).
 Proof. constructor; cbn [fst snd]; auto; try (apply nth_Rsorted; intros [|[|i]] [|[|j]] H; cbn in *; try lia; lra).
   repeat constructor; lra. Qed.
 
+(* TIE: negation, reciprocal, number operations, monotone maps, envelope and imposition of the model are the definitions recognised in
+   the source on every run (Gen/GenCtor.v) *)
+Theorem C06_stepwise_ops_are_translated (N : Num) (steps : nat) (p_lo p_hi : N) (p q : pbox N) (f : N -> N -> N) (g : N -> N) (c : N) :
+  gen_pneg N steps p_lo p_hi p = pneg N steps p_lo p_hi p /\
+  gen_precip N steps p_lo p_hi p = precip N steps p_lo p_hi p /\
+  gen_pnum N steps p_lo p_hi f p c = pnum N steps p_lo p_hi f p c /\
+  gen_punary N steps p_lo p_hi g p = punary N steps p_lo p_hi g p /\
+  gen_penv N steps p_lo p_hi p q = penv N steps p_lo p_hi p q /\
+  gen_pimp N steps p_lo p_hi p q = pimp N steps p_lo p_hi p q.
+Proof. exact (gen_stepwise_ops_are_model N steps p_lo p_hi p q f g c). Qed.
+
 Print Assumptions C06_number_increasing.
 Print Assumptions C06_number_decreasing.
 Print Assumptions C06_neg_involutive.
 Print Assumptions C06_reciprocal.
 Print Assumptions C06_monotone_map.
 Print Assumptions C06_rsub_law.
+Print Assumptions C06_stepwise_ops_are_translated.
